@@ -31,8 +31,8 @@ PROPS["C08"]["rule"] = (
     "NumberPoints, CurrentPoint and the internal record are reported; Polyline, EquatorialRadius, Flattening at both ends of the history. transit/transitdirect "
     "of all three instantiations on nasty longitude pairs and on unrolled pairs within half a turn; AreaReduce through planted sums (±A/2, ±A, 1.5A, tiny, with a "
     "low word) and crossing counts −3…4; AddEdge-built against AddPoint-built polygons and polylines (1–8 edges ≤ 9000 km); metamorphic laws on 3..36-gons of "
-    "the named shapes; tools/Planimeter in process on 0–4 polygons per input in 49 option sets (-r -s -l -R -E -G -Q -p -w -e, --geoconvert-input, "
-    "--comment-delimiter, --input-string, --line-separator, 11 malformed command lines, -h/--help), vertices as decimal degrees, d°m′s″ with and without "
+    "the named shapes; tools/Planimeter in process on 0–4 polygons per input in 52 option sets (-r -s -l -R -E -G -Q -p -w -e, --geoconvert-input, "
+    "--comment-delimiter, --input-string, --line-separator, --input-file -, --output-file -, 11 malformed command lines, -h / --help / --version), vertices as decimal degrees, d°m′s″ with and without "
     "hemisphere letters (which override -w), colon-separated, UTM/UPS and MGRS, polygons ended by blank lines, text, out-of-range values, NaN, three fields. "
     "non-trivial = history with ≥ 2 vertices at a query; distinct = distinct (op, leading bits of first arguments)")
 
@@ -54,7 +54,7 @@ PROPS["C08"]["level_text"] = (
     "the bit level), for every solver (Backend = arbitrary inverse/direct functions) and every finite history of Clear/AddPoint/AddEdge/TestPoint/TestEdge/Compute. "
     "(b) history_independent / history_independent_record: the state (_num, _crossings, both sums resp. all four accumulator words, _lat0, _lon0, _lat1, _lon1, mode) "
     "after any history is the state reached by the Add* operations after the last Clear alone; query_after_history: every query returns what it returns on that "
-    "object; record_discrete_agrees: the two models agree on everything but the representation of the sums. (e) num_eq_count(_record), count_returned(_record): the "
+    "object; clear_after_any_history(_record): Clear after any history gives the constructed state; record_discrete_agrees: the two models agree on everything but the representation of the sums. (e) num_eq_count(_record), count_returned(_record): the "
     "count returned by Compute / TestPoint / TestEdge is the number of vertices (countV: points count, edges count once there is a point, Clear restarts; +1 for the "
     "tentative vertex, 0 for TestEdge on the empty object). run_closed_form / sums_of_history / polygon_compute: for any history the sums are the sums of length, "
     "area term and crossing count over the edges laid down since the last Clear (inverse problem + transit for points, direct problem + transitdirect for edges, "
